@@ -88,6 +88,7 @@ def run(run: Run, pkg: Package) -> None:
             run.ob("R-EFFECT", fq, "no-mutators", True, "function contains no mutating construct", nontrivial=False, loc=fi.loc())
         check_ambient(run, pkg, it)
         check_saves(run, pkg, ef, fi)
+        check_memo(run, pkg, it)
     run.minimum("R-EFFECT", 300)
     run.minimum("R-SAVE", 55)
     run.extra["functions_total"] = n_funcs
@@ -97,6 +98,51 @@ def run(run: Run, pkg: Package) -> None:
     if run.tier == "thorough":
         from .canary import run_canaries
         run_canaries(run, "C18")
+
+
+# ------------------------------------------------------------------ R-STATE: results must not depend on the call history
+def check_memo(run: Run, pkg: Package, it: Interp) -> None:
+    """A method that takes an instance attribute as a cached value (`x = self.A if <test on self.A> else <computed>`) and also
+    stores self.A itself must store exactly what the non-cached arm computes; otherwise a later call continues from a value
+    of a different kind than the first call and "repeated calls agree regardless of what was computed in between" fails."""
+    fi = it.fi
+    if fi.cls is None or fi.name == "__init__" or not fi.params:
+        return
+    fq = short(fi.qual)
+    selfsym = ("sym", fi.params[0])
+    stores_ = {}
+    for ev in it.events:
+        if ev.kind == "store" and ev.data["target"][0] == "attr" and ev.data["target"][1] == selfsym and ev.data.get("op") is None:
+            stores_.setdefault(ev.data["target"][2], []).append(ev)
+    if not stores_:
+        return
+    seen = set()
+    for ev in it.events:
+        for v in ev.data.values():
+            if not isinstance(v, tuple):
+                continue
+            for x in walk(v):
+                if x[0] != "phi" or x in seen:
+                    continue
+                seen.add(x)
+                for attr, sts in stores_.items():
+                    A = ("attr", selfsym, attr)
+                    if A not in list(walk(x[1])):
+                        continue
+                    cached, fresh = (x[2], x[3]) if x[2] == A else ((x[3], x[2]) if x[3] == A else (None, None))
+                    if cached is None or A in list(walk(fresh)):
+                        continue
+                    for st in sts:
+                        X = st.data["value"]
+                        if st.seq < ev.seq and x not in list(walk(X)):
+                            continue
+                        Xf = subst(X, lambda y: fresh if y == x else None)      # what a first (non-cached) call stores
+                        same = strip_alloc(Xf) == strip_alloc(fresh)
+                        ok = True if same else (False if (fresh in list(walk(Xf)) or strip_alloc(fresh) in list(walk(strip_alloc(Xf)))) else None)
+                        run.ob("R-STATE", fq, f"memo self.{attr}", ok, f"self.{attr}, reused by later calls in place of the value computed here, is stored as exactly that value",
+                               f"reused for {show(fresh)[:70]}; stored: {show(Xf)[:110]}",
+                               witness=None if ok else (f"a first call stores self.{attr} = {show(Xf)[:120]}; the next call takes the cached branch and treats it as {show(fresh)[:60]}: "
+                                                        f"the result of {fi.name}() depends on which calls were made before"), loc=loc_of(it, st), sound=True)
 
 
 # ------------------------------------------------------------------ types (for R-FROZEN)
@@ -373,6 +419,17 @@ def strip_views(t: Term) -> Term:
             return t
 
 
+def derived_from_param(p: Term) -> bool:
+    """<path parameter> + '<suffix>' (or an f-string / conditional of such)"""
+    if p[0] == "bin" and p[1] == "+":
+        return any(x[0] == "sym" for x in (p[2], p[3])) and any(x[0] == "const" and isinstance(x[1], str) for x in (p[2], p[3]))
+    if p[0] == "fstr":
+        return any(isinstance(x, tuple) and x and x[0] == "fmt" and x[1][0] == "sym" for x in p[1])
+    if p[0] == "phi":
+        return derived_from_param(p[2]) or derived_from_param(p[3])
+    return False
+
+
 def check_saves(run: Run, pkg: Package, ef: Effects, fi) -> None:
     plain = ef.it(fi.qual)
     if not any(e.kind == "call" and e.data["call"][1] in SAVE_FUNCS for e in plain.events):
@@ -435,6 +492,32 @@ def check_saves(run: Run, pkg: Package, ef: Effects, fi) -> None:
         if prim is None or returns_none:
             # derived paths (outputfile + suffix) are side outputs; writer-only routines return nothing
             later = later_mutation(it, ev, data)
+            # a file named <own path parameter> + suffix whose content is returned rescaled / shifted by constants: the same
+            # quantity is handed back in another unit than the one written
+            resc = None
+            if later is None and not returns_none and derived_from_param(p0):
+                d0_ = strip_views(data)
+                sg_ = {(c, pol) for c, pol in ev.guards}
+                for r in it.returns:
+                    if r.seq < ev.seq or r.data["value"] == NONE or any((c, not pol) in sg_ for c, pol in r.guards):
+                        continue
+                    for comp_ in components(r.data["value"]):
+                        rv_ = strip_views(comp_)
+                        if rv_ != d0_ and any(x == d0_ for x in walk(rv_)):
+                            try:
+                                import sympy as _sp
+                                X_ = _sp.Symbol("X_saved")
+                                full_ = strip_alloc(data)
+                                e_ = S.to_sympy(strip_alloc(rv_), lambda y: X_ if y in (full_, strip_alloc(d0_)) else None)
+                                if e_.free_symbols == {X_} and _sp.Poly(e_, X_).degree() == 1 and _sp.simplify(e_ - X_) != 0:
+                                    resc = (r, _sp.sstr(e_))
+                            except Exception:  # noqa
+                                pass
+            if resc is not None:
+                run.ob("R-SAVE", fq, f"identity {key}", False, "the file written under the caller's output name holds the values the call returns",
+                       f"saved: {show(strip_alloc(data))[:60]} ; returned: {resc[1].replace('X_saved', '<saved>')}",
+                       witness=f"the call returns {resc[1].replace('X_saved', '<saved array>')} but the file holds <saved array>", loc=loc_of(it, ev), sound=True)
+                continue
             run.ob("R-SAVE", fq, f"identity {key}", later is None, "side output / writer-only: saved object is not modified afterwards",
                    "no later store" if later is None else f"modified by {key_of(later)[:80]} after being saved",
                    witness=None if later is None else "file content differs from the final values", loc=loc_of(it, ev), sound=True)
